@@ -22,6 +22,19 @@ inline typename V::mask mk(V c) {
 }
 template<class S> inline bool mk(Sc<S> c) { return bits_of(c.v) != 0; }
 
+// the same mask reached through a sequence of insert<N> calls from an all-false mask (a mask is whatever its producers leave behind: seed C07-c
+// made insert write a non-canonical 'true' lane that every observer but keep/clear accepted)
+template<class M, unsigned N, unsigned W> struct InsAll { static M go(M m, const bool* b) { return InsAll<M, N + 1, W>::go(avel::insert<N>(m, b[N]), b); } };
+template<class M, unsigned W> struct InsAll<M, W, W> { static M go(M m, const bool*) { return m; } };
+template<class V> inline typename V::mask mk_ins(V c) {
+    typename V::scalar tmp[V::width];
+    to_lanes(c, tmp);
+    bool b[V::width];
+    for (unsigned i = 0; i < V::width; ++i) b[i] = bits_of(tmp[i]) != 0;
+    return InsAll<typename V::mask, 0, V::width>::go(typename V::mask(false), b);
+}
+template<class S> inline bool mk_ins(Sc<S> c) { return bits_of(c.v) != 0; }
+
 template<class A> inline typename A::value_type at0(const A& arr) { return arr[0]; }
 template<class A> inline typename A::value_type at1(const A& arr) { return arr[1]; }
 
@@ -92,6 +105,10 @@ VX_SEL_OP(blend,      3, avel::blend(mk(c), un(a), un(b)),  (bits_of(c) != 0 ? b
 VX_SEL_OP(keep,       3, avel::keep(mk(c), un(a)),          (bits_of(c) != 0 ? bits_of(a) : 0),          true, MASKNT, BITS_EQ)
 VX_SEL_OP(clear,      3, avel::clear(mk(c), un(a)),         (bits_of(c) != 0 ? 0 : bits_of(a)),          true, MASKNT, BITS_EQ)
 VX_SEL_OP(negate,     3, avel::negate(mk(c), un(a)),        M<S>::negate(bits_of(c) != 0, a),            true, MASKNT, BITS_EQ)
+VX_SEL_OP(blend_inserted_mask,  2, avel::blend(mk_ins(b), un(a), un(b)), (bits_of(b) != 0 ? bits_of(a) : bits_of(b)), true, true, BITS_EQ)
+VX_SEL_OP(keep_inserted_mask,   2, avel::keep(mk_ins(b), un(a)),         (bits_of(b) != 0 ? bits_of(a) : 0),          true, true, BITS_EQ)
+VX_SEL_OP(clear_inserted_mask,  2, avel::clear(mk_ins(b), un(a)),        (bits_of(b) != 0 ? 0 : bits_of(a)),          true, true, BITS_EQ)
+VX_SEL_OP(negate_inserted_mask, 2, avel::negate(mk_ins(b), un(a)),       M<S>::negate(bits_of(b) != 0, a),            true, true, BITS_EQ)
 VX_SEL_OP(min,        2, avel::min(un(a), un(b)),           M<S>::min(a, b),  M<S>::ok(a) && M<S>::ok(b), M<S>::nt2(a, b), VALUE_EQ)
 VX_SEL_OP(max,        2, avel::max(un(a), un(b)),           M<S>::max(a, b),  M<S>::ok(a) && M<S>::ok(b), M<S>::nt2(a, b), VALUE_EQ)
 VX_SEL_OP(minmax_lo,  2, at0(avel::minmax(un(a), un(b))),     M<S>::min(a, b),  M<S>::ok(a) && M<S>::ok(b), M<S>::nt2(a, b), VALUE_EQ)
